@@ -4,7 +4,7 @@
  * dumped in pre-order.  Same line protocol as `sqfsmodel c16` (op `fsbuild`, lean/Driver/C16.lean).
  *
  *   fsbuild <keepUid> <forceUid> <keepGid> <forceGid> <defUid> <defGid> <defMode> <defMtime> <hexcontent>
- *     → tree <n> {<depth> <name> <mode> <uid> <gid> <mtime> <linkcount> <implicit> <rdev> <extra|NULL>}* st=<status>
+ *     → tree <n> {<depth> <name> <mode> <uid> <gid> <mtime> <linkcount> <flags: 1 implicit, 4 hard link> <rdev> <extra|NULL>}* st=<status>
  */
 #include "bin/gensquashfs/src/fstree_from_file.c"
 #include "hexio.h"
@@ -44,6 +44,7 @@ static const char *classify(const char *err, size_t n)
 	if (ends_with(err, n, ": Not a directory\n")) return "fs:notdir";
 	if (ends_with(err, n, ": File exists\n")) return "fs:exist";
 	if (ends_with(err, n, ": Too many links\n")) return "fs:mlink";
+	if (ends_with(err, n, ": File name too long\n")) return "fs:nametoolong";
 	m = after_prefix(err);
 	if (m == NULL) return "unknown";
 	if (!strncmp(m, "missing `\"`.", 12)) return "split:quote";
@@ -82,7 +83,7 @@ static void dump(const tree_node_t *n, unsigned depth)
 	printf(" %u ", depth);
 	hex_print(stdout, (const unsigned char *)n->name, strlen(n->name));
 	printf(" %u %lu %lu %lu %lu %u %llu ", (unsigned)n->mode, (unsigned long)n->uid, (unsigned long)n->gid,
-	       (unsigned long)n->mod_time, (unsigned long)n->link_count, (unsigned)(n->flags & FLAG_DIR_CREATED_IMPLICITLY), rdev);
+	       (unsigned long)n->mod_time, (unsigned long)n->link_count, (unsigned)(n->flags & (FLAG_DIR_CREATED_IMPLICITLY | FLAG_LINK_IS_HARD)), rdev);
 	if (extra == NULL) fputs("NULL", stdout);
 	else hex_print(stdout, (const unsigned char *)extra, strlen(extra));
 
